@@ -6,6 +6,7 @@ CONSTANTS
   NotifyMode = "token"
   TempApps = {}
   TwoPhaseApps = {}
+  DrainOnlyApps = {}
   ExitMode = "window"
 INVARIANTS FIFO DrainSound NoHang LockOK
 PROPERTIES FIFOStep 
